@@ -116,6 +116,7 @@ func init() {
 			c.Attr("same-key-as-header-and-trailer", "true")
 		}
 		c.Attr("trailer-style", []string{"prefix", "declared", "declared", "declared"}[style])
+		hybrid, hybridStatus := false, 0
 		outcome := c.Choose("outcome", 3)
 		isErr := outcome >= 1
 		req, resp := defaultMsgs(b.Client.shape)
@@ -135,7 +136,33 @@ func init() {
 		} else if isErr {
 			call.End = &wire.End{Code: 9, Message: "failed"}
 			call.RespMsgs = nil
-			call.TrailersOnly = c.Choose("trailers-only", 2) == 0
+			to := 4
+			if tp != vanguard.ProtocolGRPC || style != 0 {
+				to = 2
+			}
+			toc := c.Choose("trailers-only", to)
+			switch toc {
+			case 0:
+				call.TrailersOnly = true
+			case 2, 3:
+				if toc == 3 {
+					hybridStatus = 503 // ... under an HTTP status other than 200
+					c.Attr("~head-status", "503")
+				}
+				// the status in the head, the application's trailers as http.TrailerPrefix keys that the
+				// handler has set before it wrote the head
+				call.TrailersOnly, hybrid = true, true
+				c.Attr("~trailers-only", "status in the head, trailers by TrailerPrefix set before WriteHeader")
+			}
+		}
+		headStatus := 0
+		if outcome == 1 && call.TrailersOnly && (tp == vanguard.ProtocolGRPC || tp == vanguard.ProtocolGRPCWeb) {
+			// the complete RPC status in the head of a response whose HTTP status is not 200
+			// (gateways in front of a gRPC server do that)
+			if hs := c.Choose("http-status-of-trailers-only", 3); hs > 0 {
+				headStatus = []int{503, 429}[hs-1]
+				c.Attr("~head-status", fmt.Sprint(headStatus))
+			}
 		}
 		extraTrailer := tp == vanguard.ProtocolConnect && c.Choose("extra-http-trailer", 2) == 1
 		if extraTrailer {
@@ -162,6 +189,33 @@ func init() {
 				}
 				if sr == nil {
 					rep.ExtraHTTPTrailer = http.Header{"X-Middleware-Timing": {"db;dur=5"}}
+				}
+			}
+		}
+		if hybrid {
+			inner := call.Mutate
+			call.Mutate = func(sr *wire.ServerResp, rep *world.Reply) {
+				if inner != nil {
+					inner(sr, rep)
+				}
+				if sr != nil {
+					sr.StatusInHeadKeepTrailers = true
+				} else {
+					rep.PrefixTrailersEarly = true
+				}
+			}
+		}
+		if hybridStatus != 0 {
+			headStatus = hybridStatus
+		}
+		if headStatus != 0 {
+			inner := call.Mutate
+			call.Mutate = func(sr *wire.ServerResp, rep *world.Reply) {
+				if inner != nil {
+					inner(sr, rep)
+				}
+				if sr == nil && rep.Out != nil {
+					rep.Out.Status = headStatus
 				}
 			}
 		}
